@@ -23,6 +23,7 @@ import (
 
 type c14Sys interface {
 	Takeover(c string) error
+	Resume(c string) error
 	Sub(c string, fs []string, qs []byte) (bool, error)
 	Unsub(c string, fs []string) error
 	Disc(c string) error
@@ -34,6 +35,7 @@ type c14Sys interface {
 type c14Direct struct {
 	tm   *TopicManager
 	sess map[string]*Session
+	pers map[string]bool
 }
 
 // Session.store() hands the encoded session to this channel from a goroutine; one drainer for all.
@@ -46,14 +48,14 @@ var c14StoreCh = func() chan SessionStore {
 	return ch
 }()
 
-func c14NewDirect(cache int) *c14Direct {
-	return &c14Direct{tm: newTopicManager(cache), sess: map[string]*Session{}}
+func c14NewDirect(cache int, pers map[string]bool) *c14Direct {
+	return &c14Direct{tm: newTopicManager(cache), sess: map[string]*Session{}, pers: pers}
 }
 
 func (d *c14Direct) session(c string) *Session {
 	s, ok := d.sess[c]
 	if !ok {
-		s = &Session{storeCh: c14StoreCh, info: &SessionInfo{ClientID: c, CleanFlag: true, Topics: map[string]int{}}}
+		s = &Session{storeCh: c14StoreCh, info: &SessionInfo{ClientID: c, CleanFlag: !d.pers[c], Topics: map[string]int{}}}
 		d.sess[c] = s
 	}
 	return s
@@ -86,6 +88,37 @@ func (d *c14Direct) Disc(c string) error { // = closeAndDelSession
 
 func (d *c14Direct) Takeover(c string) error { return d.Disc(c) } // at this level: the old session's teardown
 
+// Resume = the end of a persistent session's connection (closeAndDelSession: the session's filters
+// are unsubscribed, the stored session stays) followed by a cleanSession=false connect (sessMgr.get:
+// the session is decoded from what Session.store persisted; handleConn subscribes allSubscribes()).
+func (d *c14Direct) Resume(c string) error {
+	s, ok := d.sess[c]
+	if !ok {
+		return nil
+	}
+	topics, _, _ := s.allSubscribes()
+	d.tm.unsubscribe(topics, c)
+	s.Lock()
+	str, err := s.encode()
+	s.Unlock()
+	if err != nil {
+		return fmt.Errorf("session of %s cannot be encoded: %v", c, err)
+	}
+	ns := &Session{storeCh: c14StoreCh, info: &SessionInfo{}}
+	if err := ns.decode(str); err != nil {
+		return fmt.Errorf("stored session of %s cannot be decoded: %v", c, err)
+	}
+	if ns.info.Topics == nil {
+		ns.info.Topics = map[string]int{}
+	}
+	d.sess[c] = ns
+	topics, qoss, _ := ns.allSubscribes()
+	if len(topics) > 0 {
+		d.tm.subscribe(topics, qoss, c)
+	}
+	return nil
+}
+
 func (d *c14Direct) Probe(topic string) (map[string]byte, error) { return d.tm.findSubscribers(topic) }
 func (d *c14Direct) Close()                                  {}
 
@@ -94,17 +127,28 @@ type c14Broker struct {
 	x     *mqxBroker
 	cl    map[string]*mqxClient
 	clean map[string]bool
-	k, n  int
+	pers  map[string]bool
+	k     int
 }
 
 const c14Wait = 20 * time.Second
 
-func c14NewBroker(cache int) (*c14Broker, error) {
+func c14NewBroker(cache int, pers map[string]bool) (*c14Broker, error) {
 	x, err := mqxNewBroker(mqxOpts{manualWatch: true, cacheSize: cache})
 	if err != nil {
 		return nil, err
 	}
-	return &c14Broker{x: x, cl: map[string]*mqxClient{}, clean: map[string]bool{}}, nil
+	return &c14Broker{x: x, cl: map[string]*mqxClient{}, clean: map[string]bool{}, pers: pers}, nil
+}
+
+// settle: Session.store is asynchronous and unordered; the harness lets every store reach the storage
+// before the next operation, so that a resumed session is the session as it was when its connection
+// ended (what happens when stores overtake each other is not C14's subject).
+func (b *c14Broker) settle() error {
+	if !b.x.StoreBarrier() {
+		return fmt.Errorf("session stores did not settle")
+	}
+	return nil
 }
 
 func (b *c14Broker) dial(c string, clean bool) (*mqxClient, error) {
@@ -119,14 +163,13 @@ func (b *c14Broker) dial(c string, clean bool) (*mqxClient, error) {
 	return cl, nil
 }
 
-// client returns c's connection, connecting it if necessary: every third new connection uses a
-// persistent session (cleanSession=false), which is only ever ended through a takeover.
+// client returns c's connection, connecting it if necessary: the clients of `pers` use a persistent
+// session (cleanSession=false), which is only ever ended through a takeover.
 func (b *c14Broker) client(c string) (*mqxClient, error) {
 	if cl, ok := b.cl[c]; ok {
 		return cl, nil
 	}
-	b.n++
-	clean := b.n%3 != 0
+	clean := !b.pers[c]
 	if !clean {
 		// nothing of an earlier persistent session of this id must be left in the store
 		b.x.store.delete(sessionStoreKey(c))
@@ -137,7 +180,45 @@ func (b *c14Broker) client(c string) (*mqxClient, error) {
 		return nil, err
 	}
 	b.cl[c], b.clean[c] = cl, clean
-	return cl, nil
+	// the session is stored (updateEGName) after the CONNACK was written: once the PINGRESP is here the
+	// read loop runs, so that store has been issued, and it settles before the first SUBSCRIBE's store
+	if !cl.Ping(c14Wait) {
+		return nil, fmt.Errorf("no PINGRESP on the new connection of %s", c)
+	}
+	return cl, b.settle()
+}
+
+// Resume: the connection of c's persistent session ends (EOF or DISCONNECT), its teardown completes,
+// and c connects again with cleanSession=false.
+func (b *c14Broker) Resume(c string) error {
+	cl, ok := b.cl[c]
+	if !ok || b.clean[c] {
+		return nil // never connected since its last session ended: nothing to resume
+	}
+	if err := b.settle(); err != nil {
+		return err
+	}
+	b.k++
+	if b.k%2 == 0 {
+		cl.Disconnect()
+	} else {
+		cl.HalfClose()
+	}
+	if !cl.WaitEOF(c14Wait) {
+		return fmt.Errorf("broker did not close the connection of %s after its end", c)
+	}
+	cl.Close()
+	delete(b.cl, c)
+	b.x.store.DeliverAll()
+	nw, err := b.dial(c, false)
+	if err != nil {
+		return err
+	}
+	if !nw.Ping(c14Wait) { // handleConn is past the re-subscription and in the read loop
+		return fmt.Errorf("no PINGRESP on the resumed connection of %s", c)
+	}
+	b.cl[c], b.clean[c] = nw, false
+	return b.settle()
 }
 
 // Takeover: a second connection with the same client id and cleanSession=true takes the id over
@@ -177,8 +258,19 @@ func (b *c14Broker) Takeover(c string) error {
 	b.x.store.DeliverAll()
 	// the successor may have been closed by the broker (the old connection's delete notification, see
 	// C16): either way the id now has no subscriptions, so simply start from a new connection later
-	if nw.Ping(5 * time.Second) {
+	alive := nw.Ping(5 * time.Second)
+	if alive && !b.pers[c] {
 		b.cl[c], b.clean[c] = nw, true
+	} else if alive {
+		// c uses persistent sessions: the clean connection only discarded the old session; it ends too
+		// (its clean session with it) and c's next operation connects with cleanSession=false again
+		nw.Disconnect()
+		if !nw.WaitEOF(c14Wait) {
+			return fmt.Errorf("broker did not close the discarding connection of %s", c)
+		}
+		nw.Close()
+		delete(b.cl, c)
+		b.x.store.DeliverAll()
 	} else {
 		// its own teardown (started by the PINGREQ it has just read) must be over, and the delete
 		// notification of its clean session delivered, before the id is used again
@@ -201,7 +293,7 @@ func (b *c14Broker) Sub(c string, fs []string, qs []byte) (bool, error) {
 	if !decided {
 		return false, fmt.Errorf("no answer to SUBSCRIBE+PINGREQ from the broker (client %s, eof=%v, registered=%v)", c, cl.EOF(), b.x.Registered(c) != nil)
 	}
-	return acked, nil
+	return acked, b.settle()
 }
 
 func (b *c14Broker) Unsub(c string, fs []string) error {
@@ -212,7 +304,7 @@ func (b *c14Broker) Unsub(c string, fs []string) error {
 	if !cl.Unsubscribe(fs, c14Wait) {
 		return fmt.Errorf("no UNSUBACK (client %s, eof=%v, registered=%v)", c, cl.EOF(), b.x.Registered(c) != nil)
 	}
-	return nil
+	return b.settle()
 }
 
 func (b *c14Broker) Disc(c string) error {
@@ -252,11 +344,11 @@ func (b *c14Broker) Close() {
 	b.x.Close()
 }
 
-func c14NewSys(mode string, cache int) (c14Sys, error) {
+func c14NewSys(mode string, cache int, pers map[string]bool) (c14Sys, error) {
 	if mode == "broker" {
-		return c14NewBroker(cache)
+		return c14NewBroker(cache, pers)
 	}
-	return c14NewDirect(cache), nil
+	return c14NewDirect(cache, pers), nil
 }
 
 // ---- conversions: a level is a JSON array of one-character strings
@@ -308,7 +400,13 @@ func TestVerifC14Replay(t *testing.T) {
 		if bi%2 == 1 {
 			cache = 3 // tiny level-split cache: evictions on the path
 		}
-		sys, err := c14NewSys(mode, cache)
+		pers := map[string]bool{}
+		if len(beh) > 0 {
+			for _, c := range vx.List(beh[0]["pers"]) {
+				pers[vx.Str(c)] = true
+			}
+		}
+		sys, err := c14NewSys(mode, cache, pers)
 		if err != nil {
 			t.Fatalf("cannot build system: %v", err)
 		}
@@ -338,6 +436,8 @@ func TestVerifC14Replay(t *testing.T) {
 				err = sys.Disc(c)
 			case "takeover":
 				err = sys.Takeover(c)
+			case "resume":
+				err = sys.Resume(c)
 			}
 			if err != nil && bad == "" {
 				hfail++
@@ -509,16 +609,17 @@ func TestVerifC14Trace(t *testing.T) {
 	multifail := vx.EnvInt("VERIF_MULTIFAIL", 0) == 1
 	rng := vx.Rand(int64(14 + 1000*vx.EnvInt("VERIF_SALT", 0) + 100*len(mode)))
 	clients := []string{"c1", "c2", "c3", "c4"}
+	pers := map[string]bool{"c3": true, "c4": true} // = Persistent of the trace configuration
 	for ti := 0; ti < n; ti++ {
 		cache := 100000
 		if ti%2 == 1 {
 			cache = 4
 		}
-		sys, err := c14NewSys(mode, cache)
+		sys, err := c14NewSys(mode, cache, pers)
 		if err != nil {
 			t.Fatalf("cannot build system: %v", err)
 		}
-		w.Emit(vx.M{"ev": "reset", "trace": ti})
+		w.Emit(vx.M{"ev": "reset", "trace": ti, "pers": []string{"c3", "c4"}})
 		live := map[string]bool{} // filters somebody subscribed at some time (probe material)
 		var liveList []string
 		fail := false
@@ -526,7 +627,7 @@ func TestVerifC14Trace(t *testing.T) {
 			c := clients[rng.Intn(len(clients))]
 			x := rng.Float64()
 			switch {
-			case x < 0.55: // subscribe
+			case x < 0.57: // subscribe
 				k := 1
 				if rng.Intn(3) == 0 {
 					k = 2 + rng.Intn(2)
@@ -580,13 +681,20 @@ func TestVerifC14Trace(t *testing.T) {
 					break
 				}
 				w.Emit(vx.M{"ev": "unsub", "c": c, "fs": lv})
-			case x < 0.93:
+			case x < 0.90:
 				if err := sys.Disc(c); err != nil {
 					w.Emit(vx.M{"ev": "harness-failure", "what": err.Error()})
 					fail = true
 					break
 				}
 				w.Emit(vx.M{"ev": "disc", "c": c})
+			case x < 0.96 && pers[c]: // (a client with a clean session: takeover)
+				if err := sys.Resume(c); err != nil {
+					w.Emit(vx.M{"ev": "harness-failure", "what": err.Error()})
+					fail = true
+					break
+				}
+				w.Emit(vx.M{"ev": "resume", "c": c})
 			default:
 				if err := sys.Takeover(c); err != nil {
 					w.Emit(vx.M{"ev": "harness-failure", "what": err.Error()})
